@@ -298,6 +298,11 @@ impl Compiler {
         hard: bool,
     ) -> Result<()> {
         let child = &info.children[0];
+        if lo > hi {
+            // `e{3,2}`: the automata engine rejects such a repeat when it is delegated; report
+            // that same error when the repeat has to be interpreted by the VM instead
+            compile_inner(&format!("x{{{},{}}}", lo, hi), &self.options)?;
+        }
         if lo == 0 && hi == 1 {
             // e?
             let pc = self.b.pc();
